@@ -9,6 +9,7 @@ import PetgraphModel.Proofs.C14W4Checks
 import PetgraphModel.Proofs.C14W4Range
 import PetgraphModel.Proofs.C14W4Graph
 import PetgraphModel.Proofs.C14W4Stable
+import PetgraphModel.Proofs.C14W6
 /-
 C14 — `Acyclic<G>` never lets a cycle in and keeps a valid topological order.
 
@@ -919,5 +920,102 @@ example : (okOf (AcyG.AG.run (AcyG.AG.new 255 0) [.addNode 10, .addNode 11, .try
 `1 → 0` reorders -/
 example : (okOf (AcyS.AS.run (AcyS.AS.new 255 false true 0) [.addNode 10, .addNode 11, .tryAddEdge 1 0 7])).map
     (fun x => (x.a.om.nodesIter, SG.nodeIndices x.g, x.g.edgeCount)) = some ([1, 0], [0, 1], 1) := by decide
+
+/-! ### wave 6: the corners
+
+The one-position range, the half-open empty ranges, what an inverted range really does, and the index
+limits of the inner graph (node limit: `add_node`; edge limit: an accepted insertion) — the calls the
+correspondence run now reaches with `fam=ncap` / `fam=ecap` and the `range` corner generator. -/
+
+open PetgraphModel.AcyW6
+
+/-- **`range(p..=p)` is `at_position(p)`** — the node at that position, or nothing; needs only that the
+position map is sorted (it is in every state, `OMInv.sorted`). -/
+theorem C14_range_single (om : OrderMap) (hs : Sorted om.p2n) (p : Nat) :
+    om.range (.inc p) (.inc p) = some (om.atPos p).toList :=
+  range_single hs p
+
+/-- for every live node `n`: `range(get_position(n)..=get_position(n))` yields exactly `[n]` -/
+theorem C14_range_single_live (L : List Nat) (om : OrderMap) (h : OMInv L om) (n p : Nat) (hn : n ∈ L)
+    (hp : om.getPos n = .ok p) : om.range (.inc p) (.inc p) = some [n] :=
+  range_single_live h hn hp
+
+/-- `p..p` and `(Excluded(p), Included(p))` are empty and never panic -/
+theorem C14_range_half_open_empty (om : OrderMap) (p : Nat) :
+    om.range (.inc p) (.exc p) = some [] ∧ om.range (.exc p) (.inc p) = some [] :=
+  range_half_open_empty om p
+
+example : exState.om.range (.inc 1) (.inc 1) = some [1] ∧ exState.om.range (.inc 7) (.inc 7) = some [] ∧
+    exState.om.range (.inc 1) (.exc 1) = some [] := by decide
+
+/-- NOT what the code does: "a range whose bounds are the wrong way round is empty". -/
+def C14_range_inverted_empty_statement : Prop :=
+  ∀ (om : OrderMap) (lo hi : Bnd), rangePanics lo hi = true → om.range lo hi = some []
+
+/-- refuted: on a non-empty order `range(2..=1)` panics (std's `BTreeMap::range`) -/
+theorem C14_range_inverted_empty_statement_false_witness :
+    rangePanics (.inc 2) (.inc 1) = true ∧ exState.om.range (.inc 2) (.inc 1) = none := by decide
+
+theorem C14_range_inverted_empty_statement_false : ¬ C14_range_inverted_empty_statement := fun h =>
+  absurd (h exState.om (.inc 2) (.inc 1) (by decide)) (by decide)
+
+/-- the repaired statement: an inverted range is empty exactly on the empty order, and panics otherwise -/
+theorem C14_range_inverted (om : OrderMap) (lo hi : Bnd) (h : rangePanics lo hi = true) :
+    (om.p2n = [] → om.range lo hi = some []) ∧ (om.p2n ≠ [] → om.range lo hi = none) := by
+  constructor
+  · intro he; simp [OrderMap.range, he]
+  · intro hne; exact (C14_range_panics_iff om lo hi).mpr ⟨h, hne⟩
+
+/-- **the node limit, `Acyclic<DiGraph>`**: in every reachable state `add_node` returns iff fewer than
+`Ix::max()` nodes exist; at the limit it panics in `Graph::add_node` (documented there), before the
+bookkeeping is touched. -/
+theorem C14_digraph_node_limit (x : AcyG.AG) (hx : AGInv x) (w : Nat) :
+    ((∃ x', x.step (.addNode w) = .ok x') ↔ x.g.nodes.length ≠ x.g.endv) ∧
+    (x.g.nodes.length = x.g.endv → x.step (.addNode w) = .error "Graph::add_node: index limit") :=
+  ⟨ag_node_limit_iff hx w, ag_node_limit_panics x w⟩
+
+/-- **the node limit, `Acyclic<StableDiGraph>`** (debug and release): `add_node` returns iff fewer than
+`Ix::max()` nodes are live (a vacancy is reused even when no new slot fits). -/
+theorem C14_stable_node_limit (x : AcyS.AS) (hx : ASInv x) (w : Nat) :
+    ((∃ x', x.step (.addNode w) = .ok x') ↔ x.g.nodeCount ≠ x.g.fin) ∧
+    (x.g.nodeCount = x.g.fin → x.step (.addNode w) = .error "StableGraph::add_node: index limit") :=
+  ⟨as_node_limit_iff hx w, as_node_limit_panics hx.1 w⟩
+
+/-- **the edge limit, `Acyclic<DiGraph>`**: with `Ix::max()` edges in the inner graph an insertion that
+the bookkeeping accepts panics in `Graph::add_edge` — after the reorder, so the object has to be
+dropped (the harness runs these on a clone) —, a rejected one answers as always and leaves the inner
+graph and the order untouched (`C14_storage_reject_unchanged`). -/
+theorem C14_digraph_edge_limit (x : AcyG.AG) (a b w : Nat) (a' : AState) (r : EdgeRes)
+    (hfull : x.g.edges.length = x.g.endv) (hres : tryAddEdge (AcyG.gView x.g) x.a a b = .ok (a', r)) :
+    (r = .accepted → x.step (.tryAddEdge a b w) = .error "Graph::add_edge: index limit") ∧
+    (r ≠ .accepted → x.step (.tryAddEdge a b w) = .ok ⟨x.g, a'⟩ ∧ x.step (.tryUpdateEdge a b w) = .ok ⟨x.g, a'⟩) :=
+  ag_edge_limit x a b w a' r hfull hres
+
+/-- non-vacuity: a `u8`-like machine with limit 2 — the third `add_node` panics, and with two edges
+the third accepted insertion panics while the cycle-closing one is still answered -/
+example : (okOf (AcyG.AG.run (AcyG.AG.new 2 0) [.addNode 10, .addNode 11])).isSome = true ∧
+    (okOf (AcyG.AG.run (AcyG.AG.new 2 0) [.addNode 10, .addNode 11, .addNode 12])).isSome = false ∧
+    (okOf (AcyG.AG.run (AcyG.AG.new 2 0) [.addNode 10, .addNode 11, .tryAddEdge 0 1 1, .tryAddEdge 0 1 2, .tryAddEdge 1 0 3])).isSome = true ∧
+    (okOf (AcyG.AG.run (AcyG.AG.new 2 0) [.addNode 10, .addNode 11, .tryAddEdge 0 1 1, .tryAddEdge 0 1 2, .tryAddEdge 0 1 3])).isSome = false := by
+  decide
+
+/-! #### run-time checks of the wave-6 hypotheses
+
+The driver expects `add_node => panic` exactly when the graph line lists `≥ Ix::max()` live nodes, and
+accepts the harness's claim `full` for a `Graph` only when the graph line lists `≥ Ix::max()` edges;
+the graph line is compared with the view of the replayed storage machine on every line.  These
+Booleans are the hypotheses of the limit theorems: -/
+
+theorem C14_node_limit_check (g : G.State) (h : GProofs.Inv g)
+    (hb : decide ((AcyG.gView g).g.nodes.length ≥ g.endv) = true) : g.nodes.length = g.endv :=
+  ag_node_limit_check h hb
+
+theorem C14_edge_limit_check (g : G.State) (h : GProofs.Inv g)
+    (hb : decide ((AcyG.gView g).g.edges.length ≥ g.endv) = true) : g.edges.length = g.endv :=
+  ag_edge_limit_check h hb
+
+theorem C14_stable_node_limit_check (g : SG.State) (h : SGProofs.Inv g)
+    (hb : decide ((AcyS.sView g).g.nodes.length ≥ g.fin) = true) : g.nodeCount = g.fin :=
+  as_node_limit_check h hb
 
 end PetgraphModel.C14T
